@@ -293,6 +293,8 @@ fn run_parent(spec: &CheckSpec, tier: Tier, seed: u64) -> i32 {
                 "KNOWN-FINDING: property={} {} [{}] ({} generated cases hit it, tolerated)",
                 spec.id, k.summary, k.signature, cnt
             );
+            // one line per listed finding
+            known_lines.retain(|l| !l.contains(&format!("[{}]", k.signature)));
             known_lines.push(line);
         }
     }
